@@ -534,6 +534,8 @@ def run(chk):
     c11.merge(chk, outs)
     existing_top_role_stream(chk)
     inplace_edit_stream(chk)
+    from harness import c20
+    c20.run_family(chk, 'transform', 400 if chk.tier == 'quick' else 4000)   # observed at the command line options
 
 
 def inplace_edit_stream(chk):
